@@ -143,7 +143,9 @@ TXT = st.text(alphabet=st.characters(min_codepoint=32, max_codepoint=126), max_s
 
 def dev_string():
     good_dev = TXT.map(lambda t: "/dev/" + t)
-    good_iscsi = st.tuples(st.sampled_from(["127.0.0.1", "10.0.0.1:3260", "[::1]", "host.example"]),
+    # libiscsi URL syntax: iscsi://[<username>[%<password>]@]<host>[:<port>]/<target-iqn>/<lun>
+    good_iscsi = st.tuples(st.sampled_from(["127.0.0.1", "10.0.0.1:3260", "[::1]", "host.example", "chap%secret@10.0.0.1",
+                                            "user@host.example:3260", "u%p@w@[::1]"]),
                            st.text(alphabet="abcdefghijklmnopqrstuvwxyz0123456789.:-", min_size=1, max_size=24), st.integers(0, 255)
                            ).map(lambda t: "iscsi://%s/iqn.2001-04.%s/%d" % t)
     near = st.one_of(
